@@ -54,7 +54,17 @@ def run(ctx):
     ctx.notes["sizes"] = sizes
 
     # ------------------------------------------------------------------ D1
-    for n in sizes:
+    # generic inputs of every size, plus structured ones (columns that are already reduced: an "identity reflector" / skip path is
+    # taken concretely and the bookkeeping of the FOLLOWING columns is exercised)
+    def _structured(n, zero_cols):
+        M = sym_quat("a", (n, n))
+        for c_ in zero_cols:
+            for r_ in range(c_ + 1, n):
+                M[r_, c_] = SQ()
+        return M
+    cases = [(n, None, f"n={n}") for n in sizes]
+    cases += [(4, (0,), "n=4 first column zero below the diagonal"), (4, (1,), "n=4 second column zero below the diagonal")]
+    for n, zero_cols, label in cases:
         calls = []
 
         def s_house(it, a, v, calls=calls):
@@ -68,10 +78,10 @@ def run(ctx):
         # scenario mechanism, its special outcome on consistently specialised inputs
         it, d = new_interp(ctx, chooser=lambda interp, node, cond: (False if _comparison_like(cond) else None),
                            summaries={"decomp.tridiagonalize:householder_matrix": s_house})
-        A = sym_quat("a", (n, n))
+        A = sym_quat("a", (n, n)) if zero_cols is None else _structured(n, zero_cols)
         A_before = A.copy()
         st, out = run_guarded(lambda: it.run(f_h, [A]))
-        tag = f"hessenbergize n={n}"
+        tag = f"hessenbergize {label}"
         if st != "ok":
             ctx.ob("C09.D1.similarity", tag, False, f"fails in-domain: {out}", where=f_h.where, construct="hessenbergize fails",
                    loc=f_h.loc())
